@@ -19,6 +19,7 @@ from typing import Optional
 from ..engine.srcmodel import AnalysisError, ClassInfo, FuncInfo, Model, Unfoldable, dotted, \
     stmt_text, walk_local
 from ..engine import rx
+from ..engine.cfg import CFG
 from ..engine.report import RuleResult, Finding
 from .common import finding
 
@@ -510,6 +511,82 @@ def r10_5(ctx, counts, spec) -> RuleResult:
     return res
 
 
+def r10_7(ctx, counts) -> RuleResult:
+    """the text handed to the lexical check is the argument, not a widened rewrite of it"""
+    model: Model = ctx.model
+    res = RuleResult(
+        'R10.7', 'VALIDATE-RAW-TEXT',
+        'In the constructors of the datatype classes, the text passed to `validate(...)` or to '
+        '`pattern.match(...)` is the argument after whitespace normalisation at most '
+        '(collapse_white_spaces / strip — the XSD whiteSpace facet): no definition of it that '
+        'reaches the check deletes characters (`.replace(x, "")`, re.sub(…, "", …), '
+        '.translate). Deleting characters first widens the accepted lexical space beyond the '
+        'pattern (xs:hexBinary("ab cd")) while is_valid(), which validates the raw text, still '
+        'rejects it.')
+    n = 0
+    for f in sorted(model.all_functions(), key=lambda q: q.key):
+        if not f.module.name.startswith('elementpath.datatypes') or \
+                f.name not in ('__init__', '__new__', 'fromstring', 'make'):
+            continue
+        checks = [c for c in walk_local(f.node) if isinstance(c, ast.Call)
+                  and isinstance(c.func, ast.Attribute) and c.args
+                  and (c.func.attr == 'validate' or
+                       (c.func.attr in ('match', 'fullmatch') and 'pattern' in stmt_text(c.func.value)))
+                  and isinstance(c.args[0], ast.Name)]
+        if not checks:
+            continue
+        cfg = CFG(f.node)
+        for c in checks:
+            var = c.args[0].id                                          # type: ignore[attr-defined]
+            here = None
+            for nd in cfg.nodes:
+                if nd.ast is None or nd.kind not in ('stmt', 'test'):
+                    continue
+                root = nd.ast.test if isinstance(nd.ast, (ast.If, ast.While)) else nd.ast
+                if any(x is c for x in ast.walk(root)):
+                    here = nd
+                    break
+            if here is None:
+                continue
+            defs = [nd for nd in cfg.nodes if nd.kind == 'stmt'
+                    and isinstance(nd.ast, (ast.Assign, ast.AnnAssign, ast.AugAssign))
+                    and any(isinstance(t, ast.Name) and t.id == var for t in ast.walk(
+                        nd.ast.targets[0] if isinstance(nd.ast, ast.Assign) else nd.ast.target))]
+            n += 1
+            bad = None
+            for d in defs:
+                if d is here:
+                    continue
+                if cfg.path_avoiding([d], lambda q: q is here,
+                                     lambda q, d=d: q in defs and q is not d) is None:
+                    continue
+                val = d.ast.value                                       # type: ignore[union-attr]
+                for x in ast.walk(val) if val is not None else []:
+                    if isinstance(x, ast.Call) and isinstance(x.func, ast.Attribute):
+                        if x.func.attr == 'replace' and len(x.args) >= 2 and \
+                                isinstance(x.args[1], ast.Constant) and x.args[1].value in ('', b''):
+                            bad = (d, x)
+                        elif x.func.attr == 'translate':
+                            bad = (d, x)
+                        elif x.func.attr == 'sub' and len(x.args) >= 2 and \
+                                isinstance(x.args[0], ast.Constant) and x.args[0].value == '':
+                            bad = (d, x)
+            res.instances.append(f'{f.key}: {stmt_text(c)[:40]} checks '
+                                 f'{"a REWRITTEN text" if bad else "the (whitespace-normalised) argument"}')
+            if bad is None:
+                res.ok()
+            else:
+                res.fail(finding('R10.7', f, bad[1], f'{var} rewritten before {c.func.attr}',
+                                 f'`{stmt_text(bad[0].ast)[:60]}` deletes characters from '
+                                 f'`{var}` before `{stmt_text(c)[:40]}` checks it: text outside '
+                                 f'the lexical space of the type is accepted by the constructor '
+                                 f'(and still rejected by is_valid)'))
+    counts['lexical_checks'] = n
+    if n < 5:
+        raise AnalysisError(f'only {n} lexical checks located in the datatype constructors')
+    return res
+
+
 def run(ctx) -> dict:
     spec = json.load(open(SPEC))
     counts: dict[str, int] = {}
@@ -523,6 +600,10 @@ def run(ctx) -> dict:
     if len(r6.instances) < 3:
         raise AnalysisError(f'R10.6: only {len(r6.instances)} trailing-zero strips located')
     results.append(r6)
+    results.append(r10_7(ctx, counts))
+    # memoised conversion helpers must be keyed by strings only (0.0 / -0.0 share a slot)
+    from .c05_purity import r05_7
+    results.append(r05_7(ctx, counts))
     return {
         'results': results, 'counts': counts,
         'explanation':
